@@ -881,6 +881,11 @@ def main():
     except ImportError:
         pass
     try:
+        import rs2lean_ferecv
+        gens += rs2lean_ferecv.generators(args.repo)
+    except ImportError:
+        pass
+    try:
         import rs2lean_dispatch
         gens += rs2lean_dispatch.generators(args.repo)
     except ImportError:
